@@ -175,6 +175,14 @@ def sub(x, q, context=None):
     return "%s<%s>" % (_r(x), _r(v))
 
 
+def subin(x, q, context=None):
+    """evaluates the transformation q on its own input, injected from inside the running evaluation
+    (what context.evaluate_on does): that sub-evaluation and its intermediates must never be cached under plain keys"""
+    _log("subin")
+    v = context.evaluate(q, input_value=x).get()
+    return "%s<<%s>>" % (_r(x), _r(v))
+
+
 def nocache(x, context=None):
     _log("nocache")
     context.disable_cache()
@@ -336,7 +344,7 @@ def after3(x):
 
 
 FIRST = [one, lit, num, flt, mk, firstcat]
-DATA = [add, mulf, flagged, pair, none_default, optint, optfb, unann, cat, ident, withctx, sub, nocache, ctxmut, boom, needs,
+DATA = [add, mulf, flagged, pair, none_default, optint, optfb, unann, cat, ident, withctx, sub, subin, nocache, ctxmut, boom, needs,
         push, setkey, dfcol, deepmut, after1, after2, after3]
 STATE = [getvar, tag, mutvar]
 ATTRS = {"attr_up": dict(ABC="abc"), "attr_low": dict(abc="x"), "vol": dict(volatile=True)}
